@@ -10,7 +10,8 @@ summary` calls on a fresh plugin against the REAL prometheus_client and its defa
                    values, gauge: accumulated value (both built-in processors add to a gauge; the statement does not say
                    set or add), histogram / summary: _count = number of calls, _sum = sum of the values
   model          : Model/C17Prom.lean (`run`), driver op "prom"
-Values are multiples of 0.25 (exact float sums); the model counts in quarter units.
+Values are multiples of 0.25 (exact float sums; the model counts in quarter units) — plus, in the edge stream, nan / inf /
+-inf, names held by prometheus_client's default collectors, and a counter called `_total`.
 """
 import core
 
@@ -62,7 +63,7 @@ def gen_case(rng, k):
     for _ in range(rng.randint(1, 3)):
         c = dict(rng.choice(calls))
         c['labels'] = [list(kv) for kv in c['labels']]
-        r = rng.randrange(12)
+        r = rng.randrange(15)
         if r == 0:
             c['ns'] = rng.choice([x for x in NAMESPACES + ['other'] if x != c['ns']])     # same key, other namespace
         elif r == 1:
@@ -74,7 +75,7 @@ def gen_case(rng, k):
         elif r == 4:
             c['m'] = rng.choice([x for x in OPS if x != c['m']])                             # same name, other type
         elif r == 5:
-            c['value'] = -abs(c['value']) - 1                                                # negative step
+            c['value'] = '-inf' if isinstance(c['value'], str) else -abs(c['value']) - 1    # negative step
         elif r == 6:
             c['labels'] = [[rng.choice(['le', 'quantile', '__x', '__name__']), 'v']]
         elif r == 7:
@@ -85,6 +86,21 @@ def gen_case(rng, k):
             c['help'] = rng.choice([x for x in HELPS + ['another help'] if x != c['help']])
         elif r == 10:
             c['ns'] = None
+        elif r == 12:
+            # reachable metric values that are no numbers to add: float('nan') / "inf" pass _process_metric
+            c['value'] = rng.choice(['nan', 'inf', '-inf', 'nan'])
+        elif r == 13:
+            # names prometheus_client's own default collectors hold in the process-wide default registry
+            nm, ns = rng.choice([('python_info', None), ('info', 'python'), ('python_gc_objects_collected', ''),
+                                 ('gc_objects_collected', 'python'), ('process_virtual_memory_bytes', None),
+                                 ('virtual_memory', 'process'), ('process_cpu_seconds', None), ('max_fds', 'process')])
+            c['name'], c['ns'] = nm, ns
+            if rng.random() < 0.5:
+                c['unit'] = 'bytes' if nm == 'virtual_memory' else None
+                c['labels'] = []
+        elif r == 14:
+            c['name'], c['ns'] = '_total', rng.choice([None, '', None, 'deep'])     # empty name after the _total strip
+            c['unit'] = rng.choice([None, c['unit']])
         else:
             c['name'] = rng.choice(['hits_counter', 'm_gauge', 'ünï', 'a b', 'hits:x'])
         calls.insert(rng.randint(0, len(calls)), c)
@@ -97,6 +113,10 @@ def corpus():
     h = {'m': 'histogram', 'name': 'lat', 'labels': [['k', 'x'], ['env', 'prod']], 'ns': 'deep', 'help': '', 'unit': 'ms', 'value': 3}
     s = {'m': 'summary', 'name': 'sz', 'labels': [], 'ns': 'deep', 'help': 'size', 'unit': 'bytes', 'value': 10}
     return [
+        {'kind': 'prom', 'stream': 'edge', 'calls': [c, dict(c, value='nan'), dict(c, value=8), dict(h, value='nan'), dict(s, value='inf'),
+                                                      dict(s, value='-inf'), dict(g, value='-inf'), dict(c, name='neg', value='-inf')]},
+        {'kind': 'prom', 'stream': 'edge', 'calls': [dict(g, name='python_info', ns=None), dict(c, name='gc_objects_collected', ns='python', labels=[], unit=None),
+                                                      dict(c, name='_total', ns=None, unit=None, labels=[]), dict(c, name='_total', ns=None, unit='ms', labels=[]), g]},
         {'kind': 'prom', 'stream': 'consistent', 'calls': [c, g, dict(c, value=4), dict(g, value=-12), h, s, dict(h, value=5),
                                                             dict(h, labels=[['env', 'prod'], ['k', 'x']], value=1), dict(s, value=2)]},
         {'kind': 'prom', 'stream': 'edge', 'calls': [c, dict(c, ns='other'), dict(c, value=-4), dict(c, labels=[]),
@@ -108,7 +128,11 @@ def corpus():
 
 # --------------------------------------------------------------------------------------- implementation
 def q(v):
-    """a scraped float in quarter units (ints stay ints when exact)"""
+    """a scraped float in quarter units (ints stay ints when exact); nan / inf by name"""
+    if v != v:
+        return 'nan'
+    if v in (float('inf'), float('-inf')):
+        return 'inf' if v > 0 else '-inf'
     x = v * 4
     return int(x) if x == int(x) else 'inexact:%r' % (v,)
 
@@ -149,9 +173,12 @@ def run_impl(case):
         for c in case['calls']:
             n0 = len(logged)
             ent = {}
-            value = c['value'] / 4
-            if value == int(value) and c['value'] % 8 == 0:
-                value = int(value)          # the default metric value reaches a processor as an int
+            if isinstance(c['value'], str):
+                value = float(c['value'])
+            else:
+                value = c['value'] / 4
+                if value == int(value) and c['value'] % 8 == 0:
+                    value = int(value)          # the default metric value reaches a processor as an int
             try:
                 getattr(plugin, c['m'])(c['name'], dict(map(tuple, c['labels'])), c['ns'], c['help'], c['unit'], value)
             except BaseException as e:  # noqa: B902
@@ -164,7 +191,8 @@ def run_impl(case):
         # what a scrape of the default registry answers for every call's time series (the oracle's view)
         scrape = []
         for c in case['calls']:
-            scrape.append({n: REGISTRY.get_sample_value(n, dict(map(tuple, c['labels']))) for n in sample_names(c)})
+            scrape.append({n: REGISTRY.get_sample_value(n, dict(map(tuple, c['labels']))) for n in sample_names(c)}
+                          if case['stream'] == 'consistent' else {})
         obs['scrape'] = scrape
     finally:
         deep.logging.exception = orig
